@@ -15,7 +15,7 @@ CHECKS = {
    technique="guard-table discharge of bounds obligations over go/ssa with feasible-path facts, call-closure panic reachability, nil-test dominance",
    ref="DESIGN.md section 5 C15"),
  "C09": dict(
-   text="Structural necessary conditions for weight/ownership/root following content, decided on every path of insert, delete, getBlockProof and markToCollect: a collapsed position is resolved before it is interpreted as another kind or as empty; the weight change of the recursive descent is folded into the branch weight and returned; every store to a hashed field is accompanied by dirty=true; the weight-ordered descent enters a child only under block <= child weight and subtracts skipped weights. Further: the single-child scan of delete keeps its sentinels outside the slot range and its decision accepts exactly the slot numbers (DOM-sentinel). The subtree returned by every recursive insert/delete is linked back or returned (DEP-linkback); an update in place replaces bytes and weight together and its nothing-changed shortcut compares both (AGREE-update); error discipline (ERR-guard, ERR-dropped). CalcHash memoises soundly (DOM-memo); one byte order throughout (AGREE-endian).",
+   text="Structural necessary conditions for weight/ownership/root following content, decided on every path of insert, delete, getBlockProof and markToCollect: a collapsed position is resolved before it is interpreted as another kind or as empty; the weight change of the recursive descent is folded into the branch weight and returned; every store to a hashed field is accompanied by dirty=true; the weight-ordered descent enters a child only under block <= child weight and subtracts skipped weights. Further: the single-child scan of delete keeps its sentinels outside the slot range and its decision accepts exactly the slot numbers (DOM-sentinel). The subtree returned by every recursive insert/delete is linked back or returned (DEP-linkback); an update in place replaces bytes and weight together and its nothing-changed shortcut compares both (AGREE-update); error discipline (ERR-guard, ERR-dropped). CalcHash memoises soundly (DOM-memo); one byte order throughout (AGREE-endian). Shared-prefix nodes never get a possibly empty key (DOM-shortkey); resolved references are private freshly decoded nodes (FRESH-resolved).",
    note="Does not decide the numeric equalities themselves (total weight, ownership interval, root equality with an independent computation).",
    technique="type-test exhaustiveness with an assumed-kind CFG walk, data-dependence and dominance checks on go/ssa",
    ref="DESIGN.md section 5 C09"),
@@ -55,12 +55,12 @@ CHECKS = {
    technique="type-dispatch exhaustiveness + nil-result summaries, path-sensitive guard facts, non-emptiness discharge table on go/ssa",
    ref="DESIGN.md section 5 C01"),
  "C02": dict(
-   text="What the root hash is computed from and when, decided structurally: the three node kinds hash little-endian origin || exactly the fields they persist (same encode function object for hashing and storing); insertNode stamps the origin before hashing and stores under that hash; branch arms that clear a slot read the child count and value presence (necessary for canonical collapse); no empty-path extension is constructed. The defect this rule found (removing a branch's value never inspected the child count) is repaired in /repo (fix: a175b31). Further: every key installed as an extension's child is provably the key of a branch (DEP-extchild).",
+   text="What the root hash is computed from and when, decided structurally: the three node kinds hash little-endian origin || exactly the fields they persist (same encode function object for hashing and storing); insertNode stamps the origin before hashing and stores under that hash; branch arms that clear a slot read the child count and value presence (necessary for canonical collapse); no empty-path extension is constructed. The defect this rule found (removing a branch's value never inspected the child count) is repaired in /repo (fix: a175b31). Further: every key installed as an extension's child is provably the key of a branch (DEP-extchild). A valued branch that loses its last child becomes a leaf (DEP-canon leaf clause).",
    note="Does not decide equality with an independent implementation for every content, full history independence, or collision resistance. DEP-canon is a necessary condition only (reads of GetNumChildren/HasValue), not proof of canonical restructuring.",
    technique="sibling skeleton agreement, ordering/dominance checks and must-depend-on reads on go/ssa",
    ref="DESIGN.md section 5 C02"),
  "C05": dict(
-   text="Structural necessary conditions for dead-node records and pruning, decided on every path: AddChange cancels the dead record of re-created content on every path and dead records are keyed by the recorded node's hash; every node hash starts with the node's origin; the pruner forwards a record only under the strict test round < version, deletes only keys/rounds that came from forwarded records, drops records only after all node deletes, and writer/reader/deleter agree on record key codec (big-endian) and column families. Further: WHO-livedelete and DOM-samekey (see C04): no live hash enters the dead set through a kept child or an unchanged re-write.",
+   text="Structural necessary conditions for dead-node records and pruning, decided on every path: AddChange cancels the dead record of re-created content on every path and dead records are keyed by the recorded node's hash; every node hash starts with the node's origin; the pruner forwards a record only under the strict test round < version, deletes only keys/rounds that came from forwarded records, drops records only after all node deletes, and writer/reader/deleter agree on record key codec (big-endian) and column families. Further: WHO-livedelete and DOM-samekey (see C04): no live hash enters the dead set through a kept child or an unchanged re-write. The dead-node record of a round is built only from this execution's nodes (DEP-recordonly); DOM-mergeall.",
    note="Does not decide reachability of recorded nodes from later roots (a graph property of runtime content). The RocksDB binding is analysed as a named API. Channel hand-over between the iterator goroutine and the deleter is assumed faithful.",
    technique="must-pass-through and strict-guard checks, provenance dataflow of deleted keys, writer/reader codec agreement on go/ssa",
    ref="DESIGN.md section 5 C05"),
@@ -70,7 +70,7 @@ CHECKS = {
    technique="who-may-call/effect confinement over the repo call graph, path-sensitive must-pass-through, index/key agreement on go/ssa",
    ref="DESIGN.md section 5 C04"),
  "C03": dict(
-   text="Layering, guard and copy discipline that child-trie isolation rests on, decided on every path: the layered store never writes its parent level (deletes only under PropagateDeletes); a merge replays changes only after the start-root comparison succeeded and only from a direct child; the memory store keeps CloneNode() copies under the given key; and no trie operation writes in place to node memory that derives from the store, the node cache, a pending change or a caller (interprocedural source-label dataflow). Further: a merge never reports success on a path where the parent's root is neither equal to nor set to the child's (DOM-adopt).",
+   text="Layering, guard and copy discipline that child-trie isolation rests on, decided on every path: the layered store never writes its parent level (deletes only under PropagateDeletes); a merge replays changes only after the start-root comparison succeeded and only from a direct child; the memory store keeps CloneNode() copies under the given key; and no trie operation writes in place to node memory that derives from the store, the node cache, a pending change or a caller (interprocedural source-label dataflow). Further: a merge never reports success on a path where the parent's root is neither equal to nor set to the child's (DOM-adopt). The level store's lookups never read its delete tombstones (WHO-tombstones); the merge replays every change (DOM-mergeall).",
    note="Does not decide equality of parent and child views after arbitrary histories. Constructors are modelled as returning fresh objects (slices handed to them are assumed not written later through the new node); aliasing is label-based, not a points-to analysis. One named exception: re-stamping the origin of replayed child nodes in mergeChanges (idempotent at equal versions).",
    technique="call-site effect confinement, path-sensitive guard checks, interprocedural provenance dataflow (FRESH) on go/ssa",
    ref="DESIGN.md section 5 C03"),
@@ -95,7 +95,7 @@ CHECKS = {
    technique="interprocedural must-lockset analysis over go/ssa + repo call graph, guard table per field, CFG reachability for publication order",
    ref="DESIGN.md section 5 C08"),
  "C06": dict(
-   text="Structural necessary conditions of correct cache answers, decided on every feasible CFG path: an existing per-key versions map is never replaced when (re)installing it; a handed-out entry is reached only with its tombstone tested false; each layer consults its own map before delegating (block layer continues at the previous block); the ancestor walk only follows the queried hash and stored links, memoises the found entry under the queried hash; entries are stored under the key/hash given and remove arms store deleted=true. Further: writes and removals are recorded in the layer's pending map on every path (DOM-writekept); the tombstone test and the data read concern the same entry (rewrite-sensitive DOM-tombstone). One known finding (CAP-absence): the per-key versions map is a recency-evicting LRU while the walk reads absence as 'not written' - stale hit after eviction, witness recorded. The two results of every lookup agree (RET-pair); lookup results of the cache maps are asserted only where found (DOM-found).",
+   text="Structural necessary conditions of correct cache answers, decided on every feasible CFG path: an existing per-key versions map is never replaced when (re)installing it; a handed-out entry is reached only with its tombstone tested false; each layer consults its own map before delegating (block layer continues at the previous block); the ancestor walk only follows the queried hash and stored links, memoises the found entry under the queried hash; entries are stored under the key/hash given and remove arms store deleted=true. Further: writes and removals are recorded in the layer's pending map on every path (DOM-writekept); the tombstone test and the data read concern the same entry (rewrite-sensitive DOM-tombstone). One known finding (CAP-absence): the per-key versions map is a recency-evicting LRU while the walk reads absence as 'not written' - stale hit after eviction, witness recorded. The two results of every lookup agree (RET-pair); lookup results of the cache maps are asserted only where found (DOM-found). A write stores a fresh Clone (FRESH-write); commit publishes every entry of the block (DOM-commitall).",
    note="Does not decide answers after LRU eviction nor equality with the block-tree oracle for every history (value-level). Trusted: go/ssa model; structural equality of tested atoms; third-party LRU as a named API.",
    technique="path-sensitive guard (must-pass-through) checks on go/ssa CFG, provenance dataflow for hash/key sources",
    ref="DESIGN.md section 5 C06"),
